@@ -262,7 +262,16 @@ def main(modname: str, argv: list[str] | None = None) -> int:
             raise Broken(f"{merged.counters['harness_errors']} work items raised inside the harness")
         fin = getattr(mod, "finish", None)
         if fin:
-            extra = fin(merged, args.tier) or {}
+            try:
+                extra = fin(merged, args.tier) or {}
+            except Broken as e:
+                # a coverage guard that fails *because* the code under test misbehaves (an outcome class that
+                # vanished, a conformance replay that disagrees) must not mask the violations that explain it
+                unlisted = {v.sig for v in merged.violations} - set(load_known(pid))
+                if not unlisted:
+                    raise
+                print(f"note: coverage guard not met in a run with unlisted violations: {e}")
+                extra = {"coverage_guard_failed": str(e)}
     except Broken as e:
         print(f"BROKEN property={pid} {e}")
         return 2
